@@ -59,3 +59,93 @@ theorem slotOf_set_other (s : Server) (i j : Nat) (x : Slot) (hij : i ≠ j) :
   unfold slotOf; simp [List.getD_eq_getElem?_getD, List.getElem?_set, hij]
 
 end Rsp.World
+
+namespace Rsp.World
+open Rsp Rsp.Radmsg
+
+theorem find_map_same (h : List (Nat × Rq)) (o : Nat) (f : Rq → Rq) :
+    ((h.map fun p => if p.1 = o then (o, f p.2) else p).find? (·.1 = o)) = (h.find? (·.1 = o)).map fun p => (o, f p.2) := by
+  induction h with
+  | nil => rfl
+  | cons p t ih =>
+    simp only [List.map_cons, List.find?_cons]
+    by_cases hp : p.1 = o
+    · simp [hp]
+    · simp [hp, ih]
+
+theorem find_map_other (h : List (Nat × Rq)) (o o' : Nat) (f : Rq → Rq) (hne : o ≠ o') :
+    ((h.map fun p => if p.1 = o then (o, f p.2) else p).find? (·.1 = o')) = h.find? (·.1 = o') := by
+  induction h with
+  | nil => rfl
+  | cons p t ih =>
+    simp only [List.map_cons, List.find?_cons]
+    by_cases hp : p.1 = o
+    · have : ¬ p.1 = o' := by rw [hp]; exact hne
+      simp [hp, this, hne, ih]
+    · simp only [hp, if_false]
+      by_cases hp' : p.1 = o' <;> simp [hp', ih]
+
+theorem getRq_updRq_same (w : World) (o : Nat) (f : Rq → Rq) : getRq (updRq w o f) o = (getRq w o).map f := by
+  unfold getRq updRq
+  simp only
+  rw [find_map_same]
+  cases List.find? (fun x => decide (x.fst = o)) w.heap <;> rfl
+
+theorem getRq_updRq_other (w : World) (o o' : Nat) (f : Rq → Rq) (hne : o ≠ o') : getRq (updRq w o f) o' = getRq w o' := by
+  unfold getRq updRq
+  simp only
+  rw [find_map_other _ _ _ _ hne]
+
+theorem getRq_setRq_same (w : World) (o : Nat) (r : Rq) : getRq (setRq w o r) o = (getRq w o).map fun _ => r :=
+  getRq_updRq_same w o fun _ => r
+
+theorem getRq_setRq_other (w : World) (o o' : Nat) (r : Rq) (hne : o ≠ o') : getRq (setRq w o r) o' = getRq w o' :=
+  getRq_updRq_other w o o' (fun _ => r) hne
+
+@[simp] theorem getCli_updRq (w : World) (o : Nat) (f : Rq → Rq) (i : Nat) : getCli (updRq w o f) i = getCli w i := rfl
+@[simp] theorem getCli_setRq (w : World) (o : Nat) (r : Rq) (i : Nat) : getCli (setRq w o r) i = getCli w i := rfl
+@[simp] theorem cliConfs_updRq (w : World) (o : Nat) (f : Rq → Rq) : (updRq w o f).cliConfs = w.cliConfs := rfl
+@[simp] theorem H_updRq (w : World) (o : Nat) (f : Rq → Rq) : (updRq w o f).H = w.H := rfl
+@[simp] theorem now_updRq (w : World) (o : Nat) (f : Rq → Rq) : (updRq w o f).now = w.now := rfl
+
+theorem updCli_servers (w : World) (i : Nat) (f : Client → Client) : (updCli w i f).servers = w.servers := by
+  unfold updCli; cases w.clients[i]? <;> rfl
+
+theorem getCli_updCli_same (w : World) (i : Nat) (f : Client → Client) (c : Client) (h : getCli w i = some c) :
+    getCli (updCli w i f) i = some (f c) := by
+  unfold getCli at h
+  unfold updCli getCli
+  rw [h]
+  have hi : i < w.clients.length := by
+    cases Nat.lt_or_ge i w.clients.length with
+    | inl h' => exact h'
+    | inr h' => simp [List.getElem?_eq_none h'] at h
+  simp [hi]
+
+theorem getRq_updCli (w : World) (i : Nat) (f : Client → Client) (o : Nat) : getRq (updCli w i f) o = getRq w o := by
+  unfold updCli getRq; cases w.clients[i]? <;> rfl
+
+theorem sendreply_servers (w : World) (o : Nat) : (sendreply w o).servers = w.servers := by
+  unfold sendreply
+  cases getRq w o with
+  | none => rfl
+  | some r =>
+    simp only
+    cases r.frm with
+    | none => rfl
+    | some ci =>
+      simp only
+      cases replyBytes w r (secretOfCli w ci) with
+      | none => simp only; rw [freerq_servers]; rfl
+      | some b => simp only; rw [updCli_servers]; rfl
+
+/-- with a stored reply, `sendreply` queues the request once more and keeps the stored bytes -/
+theorem sendreply_stored (w : World) (o ci : Nat) (r : Rq) (b : Bytes)
+    (hg : getRq w o = some r) (hf : r.frm = some ci) (hb : r.replybuf = some b) :
+    sendreply w o = updCli (setRq w o { r with replybuf := some b, msg := none }) ci
+                      (fun c => { c with replyq := c.replyq ++ [o] }) := by
+  unfold sendreply
+  have hrb : replyBytes w r (secretOfCli w ci) = some b := by unfold replyBytes; rw [hb]
+  simp only [hg, hf, hrb]
+
+end Rsp.World
